@@ -1056,6 +1056,21 @@ def rule_r13(ctx) -> List[R.Inst]:
                             f"'{unparse(wide[0])}' inside the loop over the declared fields casts the WHOLE frame to the dtype of the field "
                             f"being defaulted: every other column (float offsets, lengths) is truncated / re-typed with it",
                             construct=f"from_dict: {unparse(wide[0])}"))
+    # a filled column that is a Series is aligned on row labels when it is stored: built without `index=<the frame's index>` it is
+    # labelled 0..n-1, and a frame made from the caller's Series (a filtered / sorted list's columns) has other labels
+    ser_calls = [c_ for f in fills for c_ in ast.walk(f.value) if isinstance(c_, ast.Call) and call_name(c_) == "Series" and
+                 isinstance(c_.func, ast.Attribute) and c_.args]
+    if ser_calls and all(any(k.arg == "index" and ".index" in unparse(k.value) for k in c_.keywords) for c_ in ser_calls):
+        insts.append(R.ok(rid, "from_dict:fill-alignment", file, ser_calls[0].lineno, idiom="the filled Series carries the frame's own index"))
+    for f in fills:
+        for c_ in ast.walk(f.value):
+            if isinstance(c_, ast.Call) and call_name(c_) == "Series" and isinstance(c_.func, ast.Attribute) and c_.args and \
+                    not any(k.arg == "index" and ".index" in unparse(k.value) for k in c_.keywords):
+                insts.append(R.viol(rid, "from_dict:fill-alignment", file, c_.lineno,
+                                    f"the defaults are stored as '{unparse(c_)[:70]}', a Series labelled 0..n-1: the store aligns it on row "
+                                    f"labels, so for a frame built from columns with other labels (the columns of a filtered or sorted list) "
+                                    f"the filled field is NaN / lands on other rows", construct=f"from_dict: {unparse(c_)[:80]} without index="))
+                break
     if not fills:
         insts.append(R.undec(rid, "from_dict", file, line, "default fill not found"))
     else:
